@@ -170,6 +170,11 @@ let writer_case (toks : string list) (impl_line : string) : string * string =
   let mw = ref N0 and mk = ref N0 in
   let cfg = ref { max_keep_age = None; max_keep_bytes = N0; max_write_age = N0; max_write_bytes = N0; ticks_per_sec = nn 1000 } in
   let snap_idx = ref 0 in
+  let ev_time : (int, int) Hashtbl.t = Hashtbl.create 64 in   (* event id -> model time of its loop iteration *)
+  let restamped = ref [] in                  (* (lines of a file of an earlier run, mtime the harness gave it) *)
+  let last_event_time = ref None in          (* Some t: the last accepted line of the running writer is an event *)
+  let last_ifiles = ref [] in
+  let key_of (ls : line list) = String.concat " " (List.map (fun l -> decimal_of_n l.l_id ^ ":" ^ decimal_of_n l.l_size) ls) in
   let cur_fs () = match !w with Some ws -> ws.w_fs | None -> !fs in
   let do_snapshot () =
     if not !dead then Buffer.add_string buf (" |" ^ pr_snapshot (List.map (fun (l, b, _) -> (l, b)) !labels) (cur_fs ()));
@@ -198,6 +203,26 @@ let writer_case (toks : string list) (impl_line : string) : string * string =
          if not (ow_old_order fix18 !olds alive) then
            fail (if ow_old_order post_fix !olds alive then "writer:suffix-hole-equal-mtimes-D18"
                  else "writer:old-files-not-deleted-oldest-first");
+         last_ifiles := ifiles;
+         (* age clause: closed log files with the mtime the set knows *)
+         (match !last_event_time with
+          | Some now ->
+            let old_closed = List.filter (fun e -> List.mem e.p_name alive) !olds in
+            let rec gen_closed fl = (match fl with
+                | f :: ((g :: _) as rest) ->
+                  let k = key_of f in
+                  let mt = (match List.assoc_opt k !restamped with
+                      | Some t -> Some t
+                      | None -> (match g with
+                          | l :: _ when l.l_id <> start_id -> Hashtbl.find_opt ev_time (int_of_n l.l_id)
+                          | _ -> None)) in
+                  (match mt with
+                   | Some t -> { p_name = NGen (N0, N0); p_mtime = nn t; p_len = N0 } :: gen_closed rest
+                   | None -> gen_closed rest)
+                | _ -> []) in
+            if not (ow_age !cfg.max_keep_age (nn now) (old_closed @ gen_closed ifiles)) then
+              fail "writer:closed-file-older-than-keep-age"
+          | None -> ());
          let acc = List.rev !accepted in
          if not (oracle_writer !mw !mk acc (nn old_total) ifiles) then
            fail (if not (ow_suffix acc ifiles) then "writer:surviving-files-are-not-a-suffix-of-the-accepted-lines"
@@ -228,6 +253,7 @@ let writer_case (toks : string list) (impl_line : string) : string * string =
       clock := !clock + 1;
       let sl = { l_id = start_id; l_size = nn s0; l_time = nn !clock } in
       accepted := sl :: !accepted;
+      last_event_time := None;
       if not !dead then
         (match start fix18 Debug !cfg prefix (cur_fs ()) [] sl with
          | ROk ws -> w := Some ws
@@ -237,6 +263,10 @@ let writer_case (toks : string list) (impl_line : string) : string * string =
     | "snap" :: rest -> do_snapshot (); go rest
     | "X" :: gap :: rest ->
       do_snapshot ();
+      (* the harness re-stamps the generated files it saw: newest is gap old, 1 tick apart *)
+      let k = List.length !last_ifiles in
+      restamped := List.mapi (fun j f -> (key_of f, !clock - int_of_string gap - (k - 1 - j))) !last_ifiles;
+      last_event_time := None;
       (match !w with
        | Some ws -> fs := restamp (nn !clock) (n_of_decimal gap) ws.w_fs; w := None
        | None -> ());
@@ -246,6 +276,8 @@ let writer_case (toks : string list) (impl_line : string) : string * string =
       let size = String.sub t 1 (String.length t - 1) in
       clock := !clock + 1;
       let ev = { l_id = nn !next_id; l_size = n_of_decimal size; l_time = nn !clock } in
+      Hashtbl.replace ev_time !next_id !clock;
+      last_event_time := Some !clock;
       incr next_id;
       accepted := ev :: !accepted;
       if not !dead then
